@@ -754,7 +754,16 @@ pub fn run_bin(prop: &str) {
                                 let received = (bi(rt[9]) + bi(rt[13])) * pc + (bi(rt[10]) + bi(rt[14])) * pp;
                                 let deposited = &cin * pc;
                                 let slack = BigInt::from(2) * if pc > pp { pc.clone() } else { pp.clone() };
-                                if received > &deposited + &slack { out.oracle_fail(&format!("opening and immediately closing returned value {received} for a deposit worth {deposited}"), &req); }
+                                if received > &deposited + &slack {
+                                    // F-C10: positive impact cap above the negative one, surplus within the refunded price impact diff
+                                    let cfg = track.get(&sid).map(|x| x.cfg.clone()).unwrap_or_default();
+                                    let caps_inverted = cfg.len() > 35 && bi(&cfg[34]) > bi(&cfg[35]);
+                                    let refunded = bi(rt[13]) * pc + bi(rt[14]) * pp;
+                                    if caps_inverted && bi(rt[4]) > BigInt::from(0) && &received - &deposited <= &refunded + &slack {
+                                        out.known("F-C10", "round trip profitable: max positive position impact factor exceeds the max negative one and the negative impact above the cap is refunded as claimable collateral", &req);
+                                        out.stat("roundtrip.profit_caps_inverted");
+                                    } else { out.oracle_fail(&format!("opening and immediately closing returned value {received} for a deposit worth {deposited}"), &req); }
+                                }
                                 if received > deposited { out.stat("roundtrip.within_slack"); } else if received < deposited { out.stat("roundtrip.loss"); }
                                 if bi(rt[3]) > BigInt::from(0) { out.stat("roundtrip.close_positive_impact"); }
                             }
